@@ -25,7 +25,9 @@ PARTIAL = [
     (('humantime::format_rfc3339', 'humantime::format_rfc3339_seconds', 'humantime::format_rfc3339_millis', 'humantime::format_rfc3339_micros', 'humantime::format_rfc3339_nanos'), None, (0,)),
     (('ops::Mul::mul', 'ops::Div::div', 'Duration::from_secs_f64', 'Duration::from_secs_f32', 'Duration::mul_f64', 'Duration::mul_f32'), ('std::time::Duration', None), (0, 1)),
     (('ops::Index::index', 'ops::IndexMut::index_mut'), None, (1,)),
+    (('Duration::new',), None, (0, 1)),       # panics when the nanosecond carry overflows the seconds
 ]
+TIMER_RANGE_MS = 1 << 35   # tokio-util's DelayQueue wheel spans 2^36 ms measured from the queue's creation; half of it leaves room for the queue's age
 PASS_THROUGH = ('Instant::duration_since', 'Instant::saturating_duration_since', 'Instant::checked_duration_since', 'SystemTime::duration_since', 'TimeUntil::time_until',
                 'ops::Add::add', 'ops::Sub::sub', 'ops::Mul::mul', 'Duration::saturating_add', 'Duration::saturating_sub', 'Duration::saturating_mul', 'Duration::as_secs', 'Duration::as_millis',
                 'Duration::from_secs', 'Duration::from_millis', 'Duration::new', 'Instant::elapsed', 'Duration::checked_add', 'Instant::checked_add', 'Instant::checked_sub')
@@ -148,6 +150,18 @@ def run(ctx):
                 R.ob('C16.arith', (where, 'integer ' + rv['op']), why is None,
                      'integer arithmetic that can trap (%s) has no peer- or caller-controlled operand (ids reach only total operations)' % rv['op'], [f.loc(s)],
                      ('unsanitised: ' + why) if why else None)
+    # the constant that bounds a timer duration must lie inside the timer's range
+    for f in fns:
+        for bb, t in f.calls():
+            if callee_is(t, 'DelayQueue::insert', 'DelayQueue::reset'):
+                for r, p in P.root(P.operand(f, t['args'][2], at=bb)):
+                    if P.is_call(r, *SANITISERS):
+                        ms = [P.duration_ms(a) for a in P.args_of(r)]
+                        ms = [m for m in ms if m is not None]
+                        item = F.enclosing_item(f)
+                        R.ob('C16.range', (item.npath if item else f.npath, 'timer bound inside the timer range'), bool(ms) and min(ms) <= TIMER_RANGE_MS,
+                             'the constant that clamps the timeout handed to DelayQueue is at most 2^35 ms (DelayQueue::insert panics for timeouts beyond its 2^36 ms wheel, measured from the queue\'s creation)',
+                             [f.loc(t)], 'bound = %s ms' % (min(ms) if ms else 'not a compile-time constant'))
     R.count('partial_operation_sites', n_partial)
     if n_partial < 8:
         raise CannotDecide('only %d partial-operation sites found (floor 8)' % n_partial)
